@@ -367,7 +367,7 @@ def _grep_text(pattern: patterns.Pattern, text: str, color: bool) -> typ.Iterabl
             )
 
         lines_offset = max(0, line_idx - 1) + 1
-        lines        = all_lines[line_idx - 1 : line_idx + 2]
+        lines        = all_lines[max(0, line_idx - 1) : line_idx + 2]
 
         if line_idx == 0:
             lines[0] = matched_line
